@@ -277,8 +277,8 @@ def clientBody (f : Framed) : Bytes := f.wire.take f.contentLength.toNat
 
   The socket delivers the request in arbitrary pieces.  While a request is being received the channel
   passes every piece of the body to `collector.collect_incoming_data`, which keeps the generated
-  `collData_c0_0 piece`; when Content-Length bytes have arrived `collector.found_terminator` hands
-  `continue_request` the generated `collFound_c1_0 kept`.  An exception anywhere escapes
+  `collKept piece`; when Content-Length bytes have arrived `collector.found_terminator` hands
+  `continue_request` the generated `collHanded kept`.  An exception anywhere escapes
   `handle_read`: asyncore closes the channel and the client gets no answer at all — so the answer
   can only be independent of the segmentation if this composition is. -/
 
@@ -286,28 +286,28 @@ def clientBody (f : Framed) : Bytes := f.wire.take f.contentLength.toNat
 def collectPieces : List Bytes → List PyStr → Except String (List PyStr)
   | [], kept => .ok kept
   | p :: rest, kept =>
-    match collData_c0_0 (.bytes p) with
+    match collKept (.bytes p) with
     | .ok x => collectPieces rest (kept ++ [x])
     | .error e => .error e
 
 /-- the text handed to `continue_request` for a body that arrived as `pieces` -/
 def requestBody (pieces : List Bytes) : Except String PyStr :=
   match collectPieces pieces [] with
-  | .ok kept => collFound_c1_0 kept
+  | .ok kept => collHanded kept
   | .error e => .error e
 
-/-- `http_channel.collect_incoming_data` while no request is current: `self.in_buffer = <chanData_a0>` -/
+/-- `http_channel.collect_incoming_data` while no request is current: `self.in_buffer = <chanKept>` -/
 def bufferPieces : List Bytes → PyStr → Except String PyStr
   | [], buf => .ok buf
   | p :: rest, buf =>
-    match chanData_a0 buf (.bytes p) with
+    match chanKept buf (.bytes p) with
     | .ok b => bufferPieces rest b
     | .error e => .error e
 
 /-- the header text `deferring_http_channel.found_terminator` cracks, for a header that arrived as `pieces` -/
 def requestHeader (pieces : List Bytes) : Except String PyStr :=
   match bufferPieces pieces (.bytes []) with
-  | .ok buf => chanFound_a0 buf
+  | .ok buf => chanHeader buf
   | .error e => .error e
 
 /-! ## line protocol
